@@ -1,16 +1,18 @@
 (* C18 — proofs, part 2: the table is well formed, one Balance round satisfies the property. *)
 From Coq Require Import String List ZArith Bool Lia.
-From Verif Require Import C18.Model C18.Spec C18.Proofs_Pass.
+From Verif Require Import C18.Model C18.Spec C18.Proofs_Vec C18.Proofs_Pass.
 Import ListNotations.
 Open Scope Z_scope.
 
 (* ---------------------------------------------------------------- well-formed tables *)
-Definition tbl_wf (tbl : list row) : Prop :=
-  NoDup (map rid tbl) /\
-  forall r, In r tbl -> NoDup (map pid (rall r)) /\ NoDup (map pid (rprodpods r)).
+Definition row_wf (c : cfg) (r : row) : Prop :=
+  NoDup (map pid (rall r)) /\ NoDup (map pid (rprodpods r)) /\ row_dims (dims c) r /\
+  (forall p, In p (rall r) -> 0 <= pcpu p /\ 0 <= pmem p) /\
+  (forall p, In p (rprodpods r) -> In p (rall r)).
+Definition tbl_wf (c : cfg) (tbl : list row) : Prop :=
+  NoDup (map rid tbl) /\ forall r, In r tbl -> row_wf c r.
 
-Definition wf_round (rs : list nround) : bool :=
-  forallb (fun r => nodupb (map pid (rpods r))) rs.
+Definition wf_round (rs : list nround) : bool := forallb wf_nround rs.
 
 Lemma number_props {A B} (a : list A) : forall (b : list B) i,
   NoDup (map (fun t => fst (fst t)) (number i a b)) /\
@@ -32,18 +34,30 @@ Proof. reflexivity. Qed.
 Lemma rprodpods_mk_row c a p m : rprodpods (mk_row c a p m) = filter is_prod (rpods (mrnd m)).
 Proof. reflexivity. Qed.
 
+Lemma wf_nround_props r : wf_nround r = true ->
+  NoDup (map pid (rpods r)) /\ forall p, In p (rpods r) -> 0 <= pcpu p /\ 0 <= pmem p.
+Proof.
+  unfold wf_nround. intros H. apply andb_true_iff in H. destruct H as [H1 H2].
+  split; [apply nodupb_NoDup; exact H1|]. intros p Hp. rewrite forallb_forall in H2.
+  specialize (H2 p Hp). apply andb_true_iff in H2. destruct H2 as [A B].
+  apply Z.leb_le in A. apply Z.leb_le in B. split; assumption.
+Qed.
+
 Lemma rows_wf c a p ms :
-  NoDup (map mid ms) -> (forall m, In m ms -> NoDup (map pid (rpods (mrnd m)))) ->
-  tbl_wf (map (mk_row c a p) ms).
+  NoDup (map mid ms) -> (forall m, In m ms -> wf_nround (mrnd m) = true) ->
+  tbl_wf c (map (mk_row c a p) ms).
 Proof.
   intros Hms Hp. split.
   - rewrite map_map. erewrite map_ext; [exact Hms|]. intros m. apply rid_mk_row.
   - intros r Hr. apply in_map_iff in Hr. destruct Hr as [m [<- Hm]].
-    rewrite rall_mk_row, rprodpods_mk_row.
-    split; [apply Hp; exact Hm|apply NoDup_map_filter; apply Hp; exact Hm].
+    destruct (wf_nround_props _ (Hp m Hm)) as [H1 H2].
+    unfold row_wf. rewrite rall_mk_row, rprodpods_mk_row.
+    split; [exact H1|]. split; [apply NoDup_map_filter; exact H1|].
+    split; [apply mk_row_dims|]. split; [exact H2|].
+    intros q Hq. apply filter_In in Hq. apply Hq.
 Qed.
 
-Lemma table_wf c ns rs : wf_round rs = true -> tbl_wf (table c ns rs).
+Lemma table_wf c ns rs : wf_round rs = true -> tbl_wf c (table c ns rs).
 Proof.
   intros Hwf. unfold table.
   destruct (number_props ns rs 1) as [Hnd Hin].
@@ -52,9 +66,12 @@ Proof.
     apply NoDup_map_filter. exact Hnd.
   - intros m Hm. unfold fresh_nodes, pool_nodes in Hm. apply filter_In in Hm. destruct Hm as [Hm _].
     apply in_map_iff in Hm. destruct Hm as [t [<- Ht]]. apply filter_In in Ht. destruct Ht as [Ht _].
-    cbn [mrnd]. apply nodupb_NoDup. unfold wf_round in Hwf. rewrite forallb_forall in Hwf.
+    cbn [mrnd]. unfold wf_round in Hwf. rewrite forallb_forall in Hwf.
     apply Hwf. apply Hin. exact Ht.
 Qed.
+
+Lemma tbl_wf_dims c tbl : tbl_wf c tbl -> tbl_dims (dims c) tbl.
+Proof. intros [_ H] r Hr. apply (H r Hr). Qed.
 
 (* ---------------------------------------------------------------- small facts *)
 Lemma has_cls_true k r : has_cls k r = true <-> rcls r = k.
@@ -95,12 +112,13 @@ Qed.
 Section Sources.
   Variable c : cfg.
   Variable tbl : list row.
-  Hypothesis Hwf : tbl_wf tbl.
+  Hypothesis Hwf : tbl_wf c tbl.
 
   Lemma src_ok_of prod r : In r tbl -> rcls r = src_cls prod -> src_ok tbl prod r.
   Proof.
     intros Hin Hc. destruct Hwf as [Hnd Hp]. split; [apply find_row_in; assumption|].
-    split; [exact Hc|]. destruct (Hp r Hin). destruct prod; assumption.
+    split; [exact Hc|]. destruct (Hp r Hin) as [H1 [H2 [_ [H4 H5]]]].
+    destruct prod; cbn [r_pods]; split; try assumption. intros p Hq. apply H4. apply H5. exact Hq.
   Qed.
 
   Lemma ev_in_of prod e r : In r tbl -> rcls r = src_cls prod -> fst e = rid r ->
@@ -154,7 +172,8 @@ Section Sources.
     { destruct (is_nil (node_targets tbl)) eqn:Et; cbn zeta.
       - split; [constructor|intros e []].
       - split.
-        + apply (balance_pods_valid c tbl false abn Hd); [apply is_nil_false; exact Et|exact Hs1].
+        + apply (balance_pods_valid c tbl (proj1 Hwf) (tbl_wf_dims c tbl Hwf) false abn Hd);
+            [apply is_nil_false; exact Et|exact Hs1|apply resv_inv_init; apply Hwf].
         + apply balance_pods_node. }
     destruct (if is_nil (node_targets tbl) then _ else _) as [[evs1 st1] dn].
     cbn zeta in H1. cbn [fst snd] in H1. destruct H1 as [Hv1 Hn1].
@@ -166,7 +185,8 @@ Section Sources.
     { destruct (is_nil (prod_targets tbl)) eqn:Et; cbn zeta.
       - split; [constructor|intros e []].
       - split.
-        + apply (balance_pods_valid c tbl true pabn Hd); [apply is_nil_false; exact Et|exact Hs2].
+        + apply (balance_pods_valid c tbl (proj1 Hwf) (tbl_wf_dims c tbl Hwf) true pabn Hd);
+            [apply is_nil_false; exact Et|exact Hs2|apply resv_inv_init; apply Hwf].
         + apply balance_pods_node. }
     destruct (if is_nil (prod_targets tbl) then _ else _) as [[evs2 st2] dp].
     cbn zeta in H2. cbn [fst snd] in H2. destruct H2 as [Hv2 Hn2].
@@ -221,7 +241,7 @@ Proof.
 Qed.
 
 Lemma process_pool_round c tbl psize ds :
-  tbl_wf tbl -> round_holds c tbl psize (fst (process_pool c tbl psize ds)).
+  tbl_wf c tbl -> round_holds c tbl psize (fst (process_pool c tbl psize ds)).
 Proof.
   intros Hwf. unfold process_pool.
   destruct (is_nil (filter (has_cls cHigh) tbl) && is_nil (filter (has_cls cProdHigh) tbl)) eqn:E1;
